@@ -3,6 +3,7 @@ import Driver.QDriver
 import Driver.UtilDriver
 import Driver.ConcDriver
 import Driver.HeterDriver
+import Driver.ConcLDriver
 import EventppVerif.Util.Wrappers
 import EventppVerif.Util.Removers
 /-
@@ -256,6 +257,9 @@ def main (args : List String) : IO Unit := do
     return
   if mode = "anyid" then
     UD.anyidMain lines
+    return
+  if mode = "concl" then
+    CLD.main lines
     return
   if mode = "heter" then
     HD.main lines
